@@ -5,6 +5,7 @@
 import CosetProofs.KeyFields
 import CosetProofs.KeyConverse
 import CosetProofs.Shapes
+import CosetProofs.Cbor.Encodings
 namespace Coset.Props.C10
 open Coset Coset.Spec
 
@@ -203,6 +204,11 @@ theorem keyset_elementwise (a : List Value) (ks : List CoseKey) (h : mapRes Cose
 theorem depends_only_on_value (b1 b2 : Bytes) (v : Value) (h1 : readToValue b1 = .ok v) (h2 : readToValue b2 = .ok v) :
     fromSlice CoseKey.fromValue b1 = fromSlice CoseKey.fromValue b2 := by simp [fromSlice, h1, h2]
 
+/-- … "does not depend on the encoding", from the encodings themselves (keys and key sets). -/
+theorem any_encoding (v : Value) (b1 b2 : Bytes) (h1 : Spec.Encodes v b1) (h2 : Spec.Encodes v b2) (hd : Cbor.depthOf v ≤ Cbor.recursionLimit) :
+    fromSlice CoseKey.fromValue b1 = fromSlice CoseKey.fromValue b2 ∧ fromSlice CoseKeySet.fromValue b1 = fromSlice CoseKeySet.fromValue b2 :=
+  ⟨fromSlice_encoding_independent _ v b1 b2 h1 h2 hd, fromSlice_encoding_independent _ v b1 b2 h1 h2 hd⟩
+
 #print axioms setInsert_some
 #print axioms key_ops_set
 #print axioms accepted_is_wellformed
@@ -211,5 +217,6 @@ theorem depends_only_on_value (b1 b2 : Bytes) (v : Value) (h1 : readToValue b1 =
 #print axioms keyset_iff
 #print axioms keyset_elementwise
 #print axioms depends_only_on_value
+#print axioms any_encoding
 
 end Coset.Props.C10
